@@ -279,3 +279,27 @@ def unit_xlsx_row_writer_write_rows():
                 expect=["return", "DataFormatError"], n_loops=1, raises_only_props=["C10", "C16"])
         return {"contract": c, "callees": {"ref:XlsxRowWriter.write_row": m_write_row}, "assumptions": ["XlsxRowWriter.write_row is used through its verified contract; the writer is open (workbook present)"]}
     return ProofUnit("rowio.XlsxRowWriter.write_rows", "XlsxRowWriter.write_rows: works without a target stream; rows go to write_row in order, each once", ["C16", "C10"], make, None)
+
+
+def unit_xlsx_row_writer_close():
+    """XlsxRowWriter.close / __exit__: the workbook is written (closed) exactly once, a closed writer stays closed"""
+    def mk(is_open, via_exit, after_error=False):
+        def setup(ex, st):
+            wb = Ref("Workbook"); st.heap[wb.oid] = {}
+            self = Ref("XlsxRowWriter"); st.heap[self.oid] = {"_workbook": wb if is_open else None, "_worksheet": Ref("Worksheet") if is_open else None, "_target_path": "<xlsx>" if is_open else None, "_target_stream": None}
+            st.frames[-1].env["self"] = self
+            if via_exit: st.frames[-1].env.update({"exc_type": Ref("ExcType") if after_error else None, "exc_val": Ref("ExcValue") if after_error else None, "exc_tb": Ref("Traceback") if after_error else None})
+            st.ghost.update({"this": self, "wb": wb, "closed": []})
+        def m_wb_close(ex, st, recv, args, kw):
+            st.ghost["closed"] = st.ghost["closed"] + [recv]; yield st, None
+        def done(ex, st):
+            o = st.heap[st.ghost["this"].oid]; cl = st.ghost["closed"]
+            ok = o.get("_workbook", 0) is None and o.get("_worksheet", 0) is None and ((len(cl) == 1 and cl[0] is st.ghost["wb"]) if is_open else len(cl) == 0)
+            return Sym(BOOL, z3.BoolVal(bool(ok)))
+        name = "rowio.XlsxRowWriter.__exit__" if via_exit else "rowio.XlsxRowWriter.close"
+        c = Contract(name, setup, returns=[Clause(done, "an-open-writer's-workbook-is-closed-(written-to-its-file)-exactly-once-and-forgotten-a-closed-writer-closes-nothing", props=["C16"])], raises={}, expect=["return"], n_loops=0,
+                     modifies=["XlsxRowWriter._workbook", "XlsxRowWriter._worksheet", "XlsxRowWriter._target_path"], raises_only_props=["C16", "C10"])
+        return {"contract": c, "callees": {"ref:Workbook.close": m_wb_close}, "label": ("open" if is_open else "already closed") + (" via __exit__" if via_exit else "") + (" after an error in the block" if after_error else ""),
+                "assumptions": ["xlsxwriter.Workbook.close() writes the file and returns (assumed; the round trip through real files is the bounded C16 workbook sweep)"]}
+    def make(ctx): return [mk(True, False), mk(False, False), mk(True, True), mk(False, True)]       # how __exit__ behaves after an error in the block is not part of C16: no clause about it
+    return ProofUnit("rowio.XlsxRowWriter.close", "XlsxRowWriter.close / __exit__: workbook closed exactly once, idempotent", ["C16"], make, None)
